@@ -133,6 +133,19 @@ PURE_CONTAINER_METHODS = {"as_ref", "as_slice", "as_str", "borrow", "to_vec", "t
 CURRENT = None
 
 
+def has_opaque(v, depth=0):
+    """does an abstract value contain a part that could not be evaluated?"""
+    if v is OPAQUE or v == ("opaque",):
+        return True
+    if depth > 12:
+        return False
+    if isinstance(v, dict):
+        return any(has_opaque(x, depth + 1) for k, x in v.items() if not (isinstance(k, str) and k.startswith("_")) and k != "k") if v.get("k") != "closure" else False
+    if isinstance(v, (list, tuple)):
+        return any(has_opaque(x, depth + 1) for x in v)
+    return False
+
+
 class Interp:
     def __init__(self, env=None, src_env=None, cfg=default_cfg, on_call=None, max_steps=200000):
         self.scopes = [dict(env or {})]
@@ -988,6 +1001,11 @@ class Interp:
                 return ("Some", recv_list[0] if m != "last" else recv_list[-1])
             if m in ("get", "get_mut") and args and isinstance(args[0], int):
                 return ("Some", recv_list[args[0]]) if 0 <= args[0] < len(recv_list) else ("None",)
+            if m == "nth" and args and isinstance(args[0], int) and not isinstance(args[0], bool):
+                lst = list(recv_list)
+                if isinstance(recv, PyIter):
+                    del recv[:args[0] + 1]
+                return ("Some", lst[args[0]]) if 0 <= args[0] < len(lst) else ("None",)
             if m == "skip" and args and isinstance(args[0], int):
                 return ("list", list(recv_list)[args[0]:])
             if m == "take" and args and isinstance(args[0], int):
